@@ -176,8 +176,8 @@ class MotionGen(object):
             and not self.tiny
         self.useRel = (foc == "frames" and rng.random() < 0.7) or rng.random() < 0.2 or self.tiny
         self.useG92 = (foc == "frames" and rng.random() < 0.6) or rng.random() < 0.15
-        self.retKind = rng.choice(["e", "e", "f", "n"]) if foc != "extrusion" \
-            else rng.choice(["e", "e", "f"])
+        self.retKind = rng.choice(["e", "e", "f", "n", "m"]) if foc != "extrusion" \
+            else rng.choice(["e", "e", "f", "e", "f", "m"])
         self.useAt = foc == "at" or rng.random() < 0.3 or (foc == "arcs" and rng.random() < 0.5)
         self.useArcs = foc == "arcs" or rng.random() < 0.15 or (foc == "at" and rng.random() < 0.5)
         # retract-while-travelling (Slic3r wipe): moves that also retract.  Outside the quantifier
@@ -189,9 +189,11 @@ class MotionGen(object):
         # grid units (0.5 .. 5 mm); a multiple of 0.1 in when inch words are used so that every
         # cycle of the program has the same length (quantifier of C04 / C05)
         self.retAmount = rng.choice([127, 254]) if self.useInch else \
-            rng.choice([25, 50, 100, 150, 225])
+            rng.choice([25, 50, 100, 150, 225, 25, 50, 100, 2, 1])     # incl. 0.04 / 0.02 mm
         given = cfg
-        cfg = {"g90e": rng.random() < 0.25, "enter": [], "exit": [], "xg": {}, "at": None}
+        cfg = {"g90e": rng.random() < 0.25, "enter": [], "exit": [], "xg": {}, "at": None,
+               # the plugin's logger enabled for DEBUG (behaviour must not depend on it)
+               "debug": rng.random() < 0.5}
         if self.useDeferred or rng.random() < 0.2:
             if rng.random() < 0.8:
                 cfg["enter"] = rng.choice([["M117 ENTER"], ["M300 S440 P10", "M117 ENTER"],
@@ -476,7 +478,10 @@ class MotionGen(object):
         if self.retKind == "n":
             return
         if gh.ret == 0:
-            if self.retKind == "f":
+            kind = self.retKind
+            if kind == "m":
+                kind = rng.choice(["e", "f"])       # mixed programs: the kind is chosen per cycle
+            if kind == "f":
                 self.emit(rng.choice(["G10", "G10", "G10 S1", "G10S1", "G10  S1",
                                       "G10 S0"]))
                 gh.ret = -1
@@ -903,7 +908,8 @@ class MotionGen(object):
         codes = list(self.cfg["xg"].keys()) or ["M204"]
         code = rng.choice(codes)
         letters = rng.sample(["P", "S", "T", "R", "K"], rng.randint(1, 3))
-        words = [l + str(rng.choice([0, 0, 1, 5, 50, 500, 1000, 1250, "0.5"])) for l in letters]
+        words = [l + str(rng.choice([0, 0, 1, 5, 50, 500, 1000, 1250, "0.5", "0.00005", "0.0002",
+                                     "-0", "00", "+3"])) for l in letters]
         if rng.random() < 0.3:
             # sub-coded variants (M204.1, G4.2 ...) belong to the code the mode is configured for
             code += "." + rng.choice(["1", "2", "3", "0"])
@@ -996,6 +1002,13 @@ class MotionGen(object):
         early = nreg if not self.lateRegions else rng.randint(0, nreg)
         for _ in range(early):
             self.add_region()
+        if self.fixedNewRegions is None and rng.random() < 0.15:
+            # a disc with a negative radius: the API accepts it, it contains no point at all
+            # (not in self.regions: nothing has to be steered around it)
+            self.steps.append(("addr", {"type": "CircularRegion", "id": "empty",
+                                        "cx": float(rng.randint(40, 160)),
+                                        "cy": float(rng.randint(40, 160)),
+                                        "r": -float(rng.choice([20, 40, 80]))}))
         if rng.random() < 0.1:
             self.emit("G21")
         self.emit(rng.choice(["G28", "G28", "G28 X Y Z", "G28 X0 Y0 Z0"]))
@@ -1091,7 +1104,7 @@ class MotionGen(object):
                         gh.off[axis] = 0
                         gh.exact[axis] = True
             elif name == "escope":
-                self.emit(rng.choice(["M83", "M82", "M206 X1", "G1 E-1", "G1 E1", "G10", "G11"]))
+                self.emit(rng.choice(["M83", "M82", "M206 X1.01", "G1 E-1", "G1 E1", "G10", "G11"]))
                 if self.steps[-1][1] in ("M83",):
                     self.ghost.eabs = False
         prog = Program(self.cfg, self.seed)
